@@ -50,6 +50,17 @@ def _case(draw: Any, args: dict) -> dict:
             inits.setdefault(f"{pk}/{s}", []).append(["from", f"{pk}._shared", shared_fn, None])
         else:
             inits.setdefault(f"{pk}/{s}", [])
+    # two modules whose dotted names are prefix-related, both defining (and instantiating) a class of the same short name
+    # that is then looked up by name (superclass, unanalysed list attribute)
+    for mname in ("shapes", "shapes_3d"):
+        body = [
+            gt.klass("Shape", [gt.attr(namer.fresh("sx"), ["int"], None)]),
+            {"t": "raw", "lines": ["DEFAULT_SHAPE = Shape()"], "tags": []},
+            gt.klass(namer.fresh("Square"), [gt.attr(namer.fresh("items"), ["list", ["cls", f"{pk}.{mname}:Shape"]], "[]")], bases=[["cls", f"{pk}.{mname}:Shape"]]),
+        ]
+        # two tuple returns of equal length (ordering of the inferred tuple types)
+        body.append(gt.func(namer.fresh("two_tuples"), [gt.param("c", "pos", None, None)], ret=None, body=["if c:", "    return 1, 'a'", "return 2.5, True"]))
+        mods.append(gt.module([pk, mname], body))
     if not tie:
         inits.setdefault(pk, []).append(["from", "._shared", shared_cls, None])
         inits.setdefault(pk, []).append(["from", "._shared", shared_fn, None])
